@@ -271,6 +271,9 @@ pub mod server;
 /// Client-related connection objects and parameters.
 pub mod client;
 
+#[cfg(uflow_verif)]
+pub mod verif;
+
 /// The current protocol version ID.
 pub const PROTOCOL_VERSION: u8 = 3;
 
